@@ -149,9 +149,13 @@ fn gen_scenario(t: &mut Tape) -> Scenario {
         }
         sc.env_params_new_quoting = t.coin();
     }
-    match t.weighted(&[6, 1, 2]) {
+    match t.weighted(&[6, 2, 2]) {
         0 => {}
-        1 => sc.delta_features = Some(all[t.below(all.len())].clone()),
+        1 => {
+            // like --features: a list, last-listed first
+            let n = t.range(1, 3);
+            sc.delta_features = Some((0..n).map(|_| all[t.below(all.len())].clone()).collect::<Vec<_>>().join(" "));
+        }
         _ => sc.delta_features = Some(format!("+{}", all[t.below(all.len())])),
     }
     if t.chance(1, 2) {
@@ -454,7 +458,7 @@ impl Prop for C13 {
         600
     }
     fn rule(&self) -> String {
-        "cases = placement of marker values for 16 observable options of every value type (string, bool, integer, float, style) over the sources: command line, main [delta] section, GIT_CONFIG_PARAMETERS (old and new quoting), up to three custom [delta \"f\"] sections, the seven builtin features (what each defines is learnt from delta in the simplest setting `--features <b>`), defaults - under a generated feature graph: `features =` lists in main/custom sections (nested, repeated, acyclic), boolean feature flags in sections, --features, DELTA_FEATURES with and without '+' (one feature), feature flags on the command line; --no-gitconfig. Oracle: a reference resolver written from the documented order (command line > main section incl. env override > enabled features last-listed first, custom section before builtin value, --features/DELTA_FEATURES before flags > default; nested features: parent before its descendants) predicts every observed option's value as printed by --show-config; three constructions of the same configuration must print the same; with --no-gitconfig the result equals that of an empty gitconfig. Non-trivial = >=2 sources set some observed option and >=1 feature edge is nested; distinct by hash of the scenario.".to_string()
+        "cases = placement of marker values for 16 observable options of every value type (string, bool, integer, float, style) over the sources: command line, main [delta] section, GIT_CONFIG_PARAMETERS (old and new quoting), up to three custom [delta \"f\"] sections, the seven builtin features (what each defines is learnt from delta in the simplest setting `--features <b>`), defaults - under a generated feature graph: `features =` lists in main/custom sections (nested, repeated, acyclic), boolean feature flags in sections, --features, DELTA_FEATURES without '+' (a list of 1-3 features, as --features) and with '+' (one feature), feature flags on the command line; --no-gitconfig. Oracle: a reference resolver written from the documented order (command line > main section incl. env override > enabled features last-listed first, custom section before builtin value, --features/DELTA_FEATURES before flags > default; nested features: parent before its descendants) predicts every observed option's value as printed by --show-config; three constructions of the same configuration must print the same; with --no-gitconfig the result equals that of an empty gitconfig. Non-trivial = >=2 sources set some observed option and >=1 feature edge is nested; distinct by hash of the scenario.".to_string()
     }
     fn assumptions(&self) -> Vec<String> {
         vec![
